@@ -40,7 +40,7 @@ theorem notifyTail_core (v : World) (hf : v.fired = false) (rest : List Manager.
   exact ⟨trivial, rfl⟩
 
 /-- `Dilator.stop()` with a Manager: `manager.stop()` then `when_stopped().addCallback(T.stoppedD)` -/
-theorem stopRow_inv (h : Inv ps pend w) (hts : w.ts = .S_stoppingRC) (hm : w.hasMgr = true) :
+theorem stopRow_inv (h : Inv ps pend w) (hts : w.ts = .S_stoppingRC) (hm : w.hasMgr = true) (htm : TimerOk w) :
     (andThen (mInput .k_stop "" 0 { w with ts := .S_stoppingD }) fun w1 => (whenStopped w1, none)).2 = none ∧
     Inv ps pend (andThen (mInput .k_stop "" 0 { w with ts := .S_stoppingD }) fun w1 => (whenStopped w1, none)).1 := by
   have hnot := h.tsA (by simp [core, hts]) (by simp [core, hts])
@@ -71,7 +71,9 @@ theorem stopRow_inv (h : Inv ps pend w) (hts : w.ts = .S_stoppingRC) (hm : w.has
     have hc' : w.conn = some c := hc
     obtain ⟨hle, _⟩ := disconnect_core c w
     obtain ⟨y, hy, hyc, _, _⟩ := disconnect_closing c w x hx
-    simp only [mOuts, mOut, hc', andThen, whenStopped, disconnect, hf, Bool.false_eq_true, ↓reduceIte, true_and]
+    simp only [mOuts]
+    rw [abandon_eval "" 0 { w with ms := .STOPPING, ts := .S_stoppingD } htm c hc']
+    simp only [andThen, whenStopped, disconnect, hf, Bool.false_eq_true, ↓reduceIte, true_and]
     exact inv_core_eq (InvC.stopLater (k := core w) h hm (Or.inl hms) hts (disconnect c w).conns hle
       (by intro _ c' hc''; rw [hc] at hc''; cases hc''; exact ⟨y, hy, hyc⟩))
       (by simp [core, hf, disconnect, hc'])
